@@ -400,7 +400,8 @@ impl<W: 'static, R: 'static, T: 'static> XGenerator<W, R, T> {
             }),
             Self::Windows { inner, size } => either_p({
                 let inner: BIter<_, _, _> = Box::new(to_native!(inner, Self)._iter(ns, rt.clone()));
-                let mut memory = VecDeque::with_capacity(*size);
+                // not `with_capacity(size)`: the size is the caller's and may be huge
+                let mut memory = VecDeque::new();
                 inner
                     .zip(rt.limits.search_iter())
                     .filter_map(move |(i, s)| {
